@@ -1073,6 +1073,9 @@ def and_mask_comparing_against_constant_simplifier(op, a, b):
             # it's a constant mask
             # check if the higher bits are 0
             v = a_arg1.args[0]
+            if v is None or b.args[0] is None:
+                # the empty interval: a constant leaf without a value
+                return None
             zero_bits = a_arg1.args[1]
             mask_allones = True
             while v != 0:
